@@ -16,7 +16,8 @@ def run(ctx, res):
         ds = sc["model"]["defs"]
         kinds[sc["name"]] = {"enum": next((d["name"] for d in ds if d["k"] == "enum"), None),
                              "input": next((d["name"] for d in ds if d["k"] == "input"), None),
-                             "scalar": next((d["name"] for d in ds if d["k"] == "scalar"), "Int")}
+                             "scalar": next((d["name"] for d in ds if d["k"] == "scalar"), "Int"),
+                             "root": next((o["type"] for d in ds if d["k"] == "schema" for o in d["ops"] if o["op"] == "query"), "Query")}
     for t in triples:
         base = docs[t["doc"] - 1]
         op = G2.OPERATORS[t["operator"] - 1]
